@@ -229,10 +229,27 @@ def stepTok (prov : List (List Char × List UInt8)) (st : St) (tok : String) (ob
           match unhexKey k with
           | some key =>
             let lazy := match find? s.items key with | some (_, .notLoaded) => true | _ => false
-            let (s', r) := get s disk key
-            let res := match r with | none => "n" | some x => resTok x
+            let resOf (r : Option (Except Err Bytes)) : String := match r with | none => "n" | some x => resTok x
+            let (sA, rA) := get s disk key
+            -- A look-up of a tracked LAZY key through another spelling that differs in the trailing separator
+            -- (`a/`, `a/.` for `a`: equal by components, the territory of the recorded trailing-separator finding):
+            -- the code as it is reads the path HANDED IN (and caches ENOTDIR), an equally admissible implementation
+            -- reads the STORED key.  The property does not say which; the correspondence accepts either and the model
+            -- continues with the one observed.  The specification oracle below is not affected.
+            let alt : Option (Store × Option (Except Err Bytes)) :=
+              match find? s.items key with
+              | some (k0, .notLoaded) =>
+                if k0 != key && dirish key != dirish k0 then some (get s (fun _ => disk k0) key) else none
+              | _ => none
+            let agrees (m : String) : Bool := m == implRes || (m == "e" && implRes.startsWith "e.")
+            let (s', r, other) : Store × Option (Except Err Bytes) × Bool :=
+              match alt with
+              | some (sB, rB) => if !agrees (resOf rA) && agrees (resOf rB) then (sB, rB, true) else (sA, rA, false)
+              | none => (sA, rA, false)
+            let res := resOf r
             withKeys { st with store := some s',
-                               tags := (if lazy then ["lazy-get", "lazy-" ++ (res.take 1).toString] else []) ++ st.tags } res
+                               tags := (if other then ["get-other-spelling-reads-stored-key"] else []) ++
+                                       (if lazy then ["lazy-get", "lazy-" ++ (res.take 1).toString] else []) ++ st.tags } res
           | none => push st "bad-token"
         | ["H", k] =>
           match unhexKey k with
